@@ -536,6 +536,8 @@ def callee_preconditions(ctx, chk):
 
 
 def run(ctx, chk, tier):
+    from . import c01 as _c01
+    _c01.flag_identity(ctx, chk)   # direction flags: identity comparisons need BinaryLabel members on every construction path
     chk.rule_text = ("call conformance of every resolvable internal call site; per band function: curve consistency, joint metric, unpack order, rule-of-three arguments, band roles; "
                      "rule-of-three trigger on the integer grid; envelope formula and purity; non-trivial = obligation mentions derived terms")
     chk.explanation = ("E5 binds every statically resolvable internal call against its callee's signature (the three experimental band functions are call sites of "
